@@ -7,7 +7,7 @@ explored.  Constants fold exactly (Fractions).  Rules inspect Outcome.value (a t
 """
 from fractions import Fraction
 
-from .core import TOP, Const, Agg, Ref, FnV, Domain, enum, some, NONE, UNIT
+from .core import TOP, Const, Agg, Ref, FnV, Domain, enum, some, NONE, UNIT, ok, err
 from ..numnames import classify, OPS
 from ..facts import fmt_template as F_fmt
 
@@ -430,6 +430,17 @@ class TermDomain(Domain):
             if a.pos < len(a.items):
                 return [(some(a.items[a.pos]), it.write_ref(store, args[0], IterV(a.items, a.pos + 1)))]
             return [(NONE, store)]
+        if name.endswith("TryFrom<std::vec::Vec<T, A>> for [T; N]>::try_from") and len(vals) == 1:
+            # Vec<T> -> [T; N]: Ok(the elements) iff the vector holds exactly N, else Err(the vector back)
+            import re as _re
+            g = (getattr(self, "cur_term", None) or {}).get("callee", {}).get("generics", "")
+            m_ = _re.search(r";\s*(\d+)_usize\]", g)
+            items = a.items if isinstance(a, VecV) else (a.items if type(a).__name__ == "Seq" else None)
+            if m_ and items is not None:
+                n_ = int(m_.group(1))
+                if len(items) == n_:
+                    return [(ok(Agg("array", None, None, None, tuple(items))), store)]
+                return [(err(a), store)]
         if name == "std::vec::Vec::<T, A>::is_empty" and isinstance(a, VecV):
             return [(Const(len(a.items) == 0), store)]
         if name in ("std::convert::Into::into", "std::convert::From::from") and len(vals) == 1 \
